@@ -25,6 +25,9 @@ Part 3 (exhaustive plans): for share sizes 4 and 6, EVERY composition of the sha
   chunks written in EVERY order (25 + 71 plans), compared after every chunk, then the full read
   sweep (offset <= size+2) and get_buckets.
 
+Part 4 (two uploads at once): all 20 interleavings of two three-step uploads (allocate share 0, first
+  half, second half + close) of DIFFERENT storage indexes, compared after every step, then read back.
+
 Oracle after every step: client-visible results equal after normalisation (sets/dicts/lists
 to sorted lists, remote references to a marker, exceptions to a class table {conflict,
 bad-write-enabler, error}); directory digests of T1 and T2 byte-equal (corruption advisory file
@@ -532,6 +535,81 @@ def _plan_chunk(chunk, seed):
     return res
 
 
+# ------------------------------------------------------------------ part 4: two uploads in progress at once
+def twosi_orders():
+    """every interleaving of two three-step uploads (allocate share 0, write first half, write second half
+    + close) of DIFFERENT storage indexes that use the same share number"""
+    out = []
+    for pos in itertools.combinations(range(6), 3):
+        out.append("".join("A" if i in pos else "B" for i in range(6)))
+    return out
+
+
+def twosi_check(case, seed=None):
+    seed = boot.SEED if seed is None else seed
+    order = case["order"]
+    tw = Twins(seed, b"c31-2si")
+    k = tw.k
+    size = 4
+    sis = {"A": k.A, "B": k.Z}
+    data = {"A": k.data[0][:size], "B": k.alt[0][:size]}
+    lease = {"A": 1, "B": 2}
+    handles, step, viols = {}, {"A": 0, "B": 0}, []
+    try:
+        for j, who in enumerate(order):
+            st = step[who]
+            step[who] += 1
+            tag = "step %d of interleaving %s (%s: %s)" % (j + 1, order, who, ("allocate", "write [0,2)", "write [2,4) + close")[st])
+            if st == 0:
+                a, b = tw.both(lambda s, i: s.allocate_buckets(sis[who], k.renew[lease[who]], k.cancel[lease[who]], {0}, size, tw.canary))
+                if not same(a, b):
+                    viols.append(("two-uploads:allocate-differs", "%s: http=%s foolscap=%s" % (tag, show(a), show(b))))
+                if a[0] != "ok" or b[0] != "ok" or 0 not in a[2][1] or 0 not in b[2][1]:
+                    viols.append(("two-uploads:allocate-refused", "%s: http=%s foolscap=%s" % (tag, show(a), show(b))))
+                    break
+                handles[who] = (a[2][1][0], b[2][1][0])
+            else:
+                off = 0 if st == 1 else 2
+                chunk = data[who][off:off + 2]
+                h = handles[who]
+                a = tw.call(tw.t1, lambda: h[0].callRemote("write", off, chunk))
+                b = tw.call(tw.t2, lambda: h[1].callRemote("write", off, chunk))
+                if not same(a, b) or a[0] != "ok":
+                    viols.append(("two-uploads:write-differs:%s/%s" % (a[0], b[0]), "%s: http=%s foolscap=%s" % (tag, show(a), show(b))))
+                    break
+                if st == 2:
+                    ca = tw.call(tw.t1, lambda: h[0].callRemote("close"))
+                    cb = tw.call(tw.t2, lambda: h[1].callRemote("close"))
+                    if ca[0] != cb[0] or ca[0] != "ok":
+                        viols.append(("two-uploads:close-differs:%s/%s" % (ca[0], cb[0]), "%s: http=%s foolscap=%s" % (tag, show(ca), show(cb))))
+                        break
+            tw.compare_state(viols, "two-uploads", tag)
+        if not viols:
+            for who in ("A", "B"):
+                a, b = tw.both(lambda s, i: s.get_buckets(sis[who]))
+                if not same(a, b) or a[0] != "ok" or 0 not in a[2] or 0 not in b[2]:
+                    viols.append(("two-uploads:share-not-visible", "after interleaving %s upload %s: get_buckets http=%s foolscap=%s" % (order, who, show(a), show(b))))
+                    continue
+                x = tw.call(tw.t1, lambda: a[2][0].callRemote("read", 0, size))
+                y = tw.call(tw.t2, lambda: b[2][0].callRemote("read", 0, size))
+                if not same(x, y) or x[0] != "ok" or x[2] != data[who]:
+                    viols.append(("two-uploads:wrong-contents", "after interleaving %s upload %s reads back http=%s foolscap=%s, written %r" % (order, who, show(x), show(y), data[who])))
+    finally:
+        tw.close()
+    return _dedup(viols)
+
+
+def _twosi_chunk(chunk, seed):
+    res = common.Result()
+    for order in chunk:
+        case = {"kind": "twosi", "order": order, "seed": seed}
+        res.count("twosi_interleavings")
+        res.count("twosi_steps", 6)
+        for sig, msg in twosi_check(case, seed):
+            res.violation(sig, case, msg)
+    return res
+
+
 def version_check(seed):
     tw = Twins(seed, b"c31-ver")
     viols = []
@@ -575,6 +653,8 @@ def replay(case):
         return plan_check(case, seed)[0]
     if case.get("kind") == "version":
         return version_check(seed)
+    if case.get("kind") == "twosi":
+        return twosi_check(case, seed)
     hist = case["history"]
     if hist and hist[0][0] == "domain":
         return replay_tagged(hist, seed)[1]
@@ -644,6 +724,7 @@ def run(tier, seed):
     for sig, msg in version_check(seed):
         total.violation(sig, {"kind": "version"}, msg)
     total.merge(explore(depth, seed))
+    total.merge(common.pmap(_twosi_chunk, twosi_orders(), (seed,)))
     c = total.counts
     nplans = c.get("transitions:plan", 0) - 1
     plan_steps = sum(len(p) + 1 for sz in (4, 6) for p in all_plans(sz)) if nplans > 0 else 0
@@ -656,9 +737,10 @@ def run(tier, seed):
         "mutable_states": c.get("states:mut", 0), "mutable_transitions": c.get("transitions:mut", 0),
         "upload_plans": nplans, "upload_plan_steps": plan_steps,
         "reads_per_plan_sweep": {"size4": len(all_pairs(4)), "size6": len(all_pairs(6))},
+        "two_upload_interleavings": c.get("twosi_interleavings", 0), "two_upload_steps": c.get("twosi_steps", 0),
         "bfs_depth": depth,
         "state_cap_hit": bool(total.notes.get("capped")),
-        "rule": "twin real servers (HTTP path / Foolscap path); BFS to depth %d over the immutable alphabet (allocate x2 quick / x3 thorough, every sub-range write of a 4-byte share, conflicting and overflowing writes, dead-handle write, abort, add_lease, advise, zero-length read, full read sweep) and over the mutable alphabet (12 read-test-write requests, add_lease, advise, readv of a missing share, zero-length readv, full slot_readv sweep); every transition runs both real paths and compares results, directory digests and BucketWriter tables; plus every composition of a 4- and a 6-byte share into <= 3 chunks in every order (%d plans; each chunk is a compared step, a plan whose share cannot be read back completely is a violation) with every (offset <= size+2, 1 <= length <= size+3) read" % (depth, nplans),
+        "rule": "twin real servers (HTTP path / Foolscap path); BFS to depth %d over the immutable alphabet (allocate x2 quick / x3 thorough, every sub-range write of a 4-byte share, conflicting and overflowing writes, dead-handle write, abort, add_lease, advise, zero-length read, full read sweep) and over the mutable alphabet (12 read-test-write requests, add_lease, advise, readv of a missing share, zero-length readv, full slot_readv sweep); every transition runs both real paths and compares results, directory digests and BucketWriter tables; plus every composition of a 4- and a 6-byte share into <= 3 chunks in every order (%d plans; each chunk is a compared step, a plan whose share cannot be read back completely is a violation) with every (offset <= size+2, 1 <= length <= size+3) read; plus all 20 interleavings of two three-step uploads of different storage indexes using the same share number, compared after every step and read back" % (depth, nplans),
     }
     return total, cov
 
